@@ -3,6 +3,7 @@
 from __future__ import annotations
 
 import ast
+from ..core import utext
 from math import factorial
 
 from ..convtables import UNK, Groups, importer_tables
@@ -90,7 +91,7 @@ def run(prog: Program, res: Result, tier: str) -> None:
                 f"{inst}: CW and CCW must map to opposite parities, the "
                 "unspecified tag to None", instance=inst)
     # both tetrahedral constructions use (centre, *neighbours)
-    txt = ast.unparse(fi.node)
+    txt = utext(fi.node)
     inst = "tetrahedral descriptor = (centre, *RDKit neighbours[, None])"
     if "stereo_atoms = (id_atom_map[atom_idx], *neighbors)" in txt and \
             "Tetrahedral((*stereo_atoms, None), self._rd_tetrahedral[chiral_tag])" \
@@ -261,8 +262,13 @@ def check_idmap(prog: Program, res: Result, fi) -> None:
                 continue
             if norm(tgt) != "id_atom_map":
                 continue
-            sh = shape(value)
-            (out if sh else odd).append(sh or norm(value, 120))
+            alts = [value]
+            while any(isinstance(v, ast.IfExp) for v in alts):
+                alts = [x for v in alts for x in (
+                    (v.body, v.orelse) if isinstance(v, ast.IfExp) else (v,))]
+            for v in alts:
+                sh = shape(v)
+                (out if sh else odd).append(sh or norm(v, 120))
         return sorted(out), odd
     (a, odd_a), (b, odd_b) = maps(fi), maps(
         prog.fn("rdmol2graph:mol_graph_from_rdmol"))
